@@ -249,22 +249,33 @@ theorem merge_existing_groups_null (fuel : Nat) (m : Mem) (a0 a1 a2 a3 : Val) (s
 /-- the blocks of the strings of the group list are what the object says, whoever describes it -/
 theorem GlMem.fst_unique {m : Mem} {bk bl bl' : Nat} {gl gl' : List (Nat × List UInt8)} (h : GlMem m bk bl gl) (h' : GlMem m bk bl' gl') :
     bl = bl' ∧ gl.map (·.1) = gl'.map (·.1) := by
-  obtain ⟨kb, k1, k2, k3, k4⟩ := h.kf
-  obtain ⟨kb', k1', k2', k3', k4'⟩ := h'.kf
-  rw [k1] at k1'; injection k1' with hk; subst hk
-  rw [k3] at k3'; injection k3' with h3; injection h3 with hbl _
-  rw [k4] at k4'; injection k4' with h4; injection h4 with hlen
-  have hlen' : gl.length = gl'.length := by omega
-  subst hbl
-  obtain ⟨gb, g1, g2, g3, g4⟩ := h.arr
-  obtain ⟨gb', g1', g2', g3', g4'⟩ := h'.arr
-  rw [g1] at g1'; injection g1' with hg; subst hg
-  refine ⟨rfl, List.ext_getElem (by simp [hlen']) (fun i hi hi' => ?_)⟩
-  simp only [List.length_map] at hi hi'
-  have e1 := (g4 i hi).1
-  have e2 := (g4' i hi').1
-  rw [e1] at e2; injection e2 with e2; injection e2 with e2
-  simp [e2]
+  rcases h with h | ⟨hg, hb, nb, n1, n2, n3, n4⟩
+  · rcases h' with h' | ⟨hg', hb', nb', n1', n2', n3', n4'⟩
+    · obtain ⟨kb, k1, k2, k3, k4⟩ := h.kf
+      obtain ⟨kb', k1', k2', k3', k4'⟩ := h'.kf
+      rw [k1] at k1'; injection k1' with hk; subst hk
+      rw [k3] at k3'; injection k3' with h3; injection h3 with hbl _
+      rw [k4] at k4'; injection k4' with h4; injection h4 with hlen
+      have hlen' : gl.length = gl'.length := by omega
+      subst hbl
+      obtain ⟨gb, g1, g2, g3, g4⟩ := h.arr
+      obtain ⟨gb', g1', g2', g3', g4'⟩ := h'.arr
+      rw [g1] at g1'; injection g1' with hg; subst hg
+      refine ⟨rfl, List.ext_getElem (by simp [hlen']) (fun i hi hi' => ?_)⟩
+      simp only [List.length_map] at hi hi'
+      have e1 := (g4 i hi).1
+      have e2 := (g4' i hi').1
+      rw [e1] at e2; injection e2 with e2; injection e2 with e2
+      simp [e2]
+    · obtain ⟨kb, k1, k2, k3, k4⟩ := h.kf
+      rw [k1] at n1'; injection n1' with hk; subst hk
+      rw [k3] at n3'; cases n3'
+  · rcases h' with h' | ⟨hg', hb', nb', n1', n2', n3', n4'⟩
+    · obtain ⟨kb, k1, k2, k3, k4⟩ := h'.kf
+      rw [k1] at n1; injection n1 with hk; subst hk
+      rw [k3] at n3; cases n3
+    · subst hg hg' hb hb'
+      exact ⟨rfl, rfl⟩
 
 theorem GlMem.mem_fst {m : Mem} {bk bl bl' : Nat} {gl gl' : List (Nat × List UInt8)} (h : GlMem m bk bl gl) (h' : GlMem m bk bl' gl')
     {x : Nat × List UInt8} (hx : x ∈ gl') : ∃ y, y ∈ gl ∧ y.1 = x.1 := by
@@ -280,7 +291,7 @@ structure ArrInv (m0 : Mem) (bk bl0 fa : Nat) (names0 : List (List UInt8)) (gl0l
     (sel : List Econf.Entry) (mem : Mem) : Prop where
   agree : ∀ b, b < m0.length → b ∉ [bk, bl0, fa] → mem[b]? = m0[b]?
   grows : m0.length ≤ mem.length
-  dest : ∃ bl' gl', GlMem mem bk bl' gl' ∧ (bl' = bl0 ∨ m0.length ≤ bl') ∧ (∀ blk, mem[bk]? = some blk → blk.writable = true) ∧ bk ≠ bl' ∧
+  dest : ∃ bl' gl', GlMem mem bk bl' gl' ∧ (bl' = bl0 ∨ m0.length ≤ bl') ∧ (∀ kb blk, m0[bk]? = some kb → mem[bk]? = some blk → KfKeep kb blk) ∧ (gl' ≠ [] → bk ≠ bl') ∧
       (∀ x, x ∈ gl' → x.1 ≠ bk ∧ x.1 ≠ bl') ∧ gl'.length ≤ gl0len + sel.length ∧
       gl'.map (·.2) = (sel.map (·.group)).foldl Econf.addGroup names0 ∧
       ∀ j (h : j < sel.length), EntMem mem fa (7 * (start + j)) (Econf.cpyEntry (sel[j])) [bk, bl']
@@ -295,9 +306,9 @@ theorem ArrInv.frame {m0 : Mem} {bk bl0 fa : Nat} {names0 : List (List UInt8)} {
   obtain ⟨ablk, a1, a2, a3, a4, a5, a6⟩ := h.arr
   have hg := h.grows
   refine ⟨fun b hb hav => by rw [hm b (by omega)]; exact h.agree b hb hav, by omega, ?_, ⟨ablk, by rw [hm fa (by omega)]; exact a1, a2, a3, a4, a5, a6⟩⟩
-  have hG' : GlMem mem' bk bl' gl' := d1.mono_of (hm bk (by omega)) (hm bl' (by obtain ⟨g, g1, _⟩ := d1.arr; exact (List.getElem?_eq_some_iff.1 g1).1))
+  have hG' : GlMem mem' bk bl' gl' := d1.mono_of (hm bk (by omega)) (hm bl' d1.bl_lt)
     (fun b str hc _ => hm b (cstr_lt hc))
-  exact ⟨bl', gl', hG', d2, fun blk hb => d3 blk (by rw [← hm bk (by omega)]; exact hb), d4, d5, d6, d7, fun j hj => (d8 j hj).mono (fun b hb _ => hm b hb)⟩
+  exact ⟨bl', gl', hG', d2, fun kb blk hk hb => d3 kb blk hk (by rw [← hm bk (by omega)]; exact hb), d4, d5, d6, d7, fun j hj => (d8 j hj).mono (fun b hb _ => hm b hb)⟩
 
 /-- what the three loops share about their surroundings -/
 structure ArrCtx (m0 : Mem) (bk bl0 fa cell : Nat) (gl0len cap : Nat) : Prop where
@@ -346,9 +357,11 @@ theorem ArrInv.append {m0 : Mem} {bk bl0 fa cell : Nat} {names0 : List (List UIn
     exact ⟨hav.1, hbl'ne b hb hav.2.1⟩)
   have hfalt := C.fa_lt
   have hgrow : m0.length ≤ M.length := h.grows
+  obtain ⟨kb0, hkb0⟩ : ∃ kb0, m0[bk]? = some kb0 := ⟨_, List.getElem?_eq_getElem C.bk_lt⟩
+  obtain ⟨kbM, hkbM, _⟩ := d1.obj
   obtain ⟨m', bl'', gl'', hex, hEnt, hG', hnames, hfr, ⟨ablk', b1, b2, b3, b4, b5, b6⟩, hlen', hblor, hkw', hne', hd', hgll, hfreshv⟩ :=
     C_fe_append M bk bl' cell fa bs os gl' e loc loc2 srcE idxE t (start + sel.length) cap
-      d1 hE d3 d4 d5 (by omega) hline fuel (by omega) hl0 hl1 ht ht1 hsrc hidx hl2t
+      d1 hE (fun blk hb => (d3 kb0 blk hkb0 hb).1) d4 d5 (by omega) hline fuel (by omega) hl0 hl1 ht ht1 hsrc hidx hl2t
       cblk hcM c2 c3 ⟨hcav.1, hbl'ne cell hclt hcav.2.1⟩ ablk a1 a2 a3 a5 a4 ⟨C.fa_ne.1, hbl'ne fa C.fa_lt C.fa_ne.2⟩ hroom
   refine ⟨m', hex, ?_, hlen', fun bv hbv => ?_, fun b hb h1 hav hnb => ?_, fun ablkM ablk2 hM2 hm2 k hk => ?_⟩
   rotate_left
@@ -372,7 +385,7 @@ theorem ArrInv.append {m0 : Mem} {bk bl0 fa cell : Nat} {names0 : List (List UIn
     simp only [List.mem_cons, List.not_mem_nil, or_false, not_or] at hav
     rw [hfr b (by omega) hav.1 (hbl'ne b hb hav.2.1) hav.2.2]
     exact h.agree b hb (by simp [hav])
-  · refine ⟨bl'', gl'', hG', ?_, hkw', hne', hd', by simp; omega, ?_, ?_⟩
+  · refine ⟨bl'', gl'', hG', ?_, fun kb blk hk hb => (d3 kb kbM hk hkbM).trans (hkw' kbM blk hkbM hb), hne', hd', by simp; omega, ?_, ?_⟩
     · rcases hblor with e | e
       · rw [e]; exact d2
       · right; omega
@@ -954,9 +967,7 @@ theorem me_override {m0 : Mem} {bk bl0 fa cell be bea : Nat} {es : List Econf.En
         rcases d2 with e | e
         · rw [e]; exact Ne.symm C.fa_ne.2
         · omega
-      have hbl'lt : bl' < M1.length := by
-        obtain ⟨gb, g1, _⟩ := d1.arr
-        exact (List.getElem?_eq_some_iff.1 g1).1
+      have hbl'lt : bl' < M1.length := d1.bl_lt
       have hG3 : GlMem (M2'.set fa { ablk1 with slots := ablk1.slots.set (7 * (start + sel.length) + 2) (.ptr bn 0) }) bk bl' gl' := d1.mono_of
         (hkeep3 bk (by omega) (Ne.symm C.fa_ne.1) (hlow bk (by omega)))
         (hkeep3 bl' hbl'lt hbl'fa (fun bv hv => ((hbv bv hv).2.2 bl' gl' d1).1))
@@ -970,9 +981,9 @@ theorem me_override {m0 : Mem} {bk bl0 fa cell be bea : Nat} {es : List Econf.En
         simp only [List.mem_cons, List.not_mem_nil, or_false, not_or] at hav'
         rw [hkeep3 b (by omega) hav'.2.2 (hlow b (by omega))]
         exact h1.agree b hb hav
-      · intro blk hb
+      · intro kb blk hk hb
         rw [hkeep3 bk (by omega) (Ne.symm C.fa_ne.1) (hlow bk (by omega))] at hb
-        exact d3 blk hb
+        exact d3 kb blk hk hb
       · -- the groups are those of the entry copied
         rw [d7]
         simp [hov, Econf.cpyEntry]
